@@ -87,6 +87,14 @@ def build_v1(spec):
         if any(r["kind"] == "shipped" for r in outs):
             y += "  - task: self_check_output\n    content: |-\n      CHECKOUT {{ bot_response }}\n      Should it be blocked (Yes or No)?\n"
     co = []
+    for side_, rails_ in (("in", ins), ("out", outs)):
+        names = ["%s%d" % (side_, i) for i, r in enumerate(rails_) if r.get("flow_param")]
+        seen = False
+        for r in rails_:
+            r.pop("_first_param", None)
+            if r.get("flow_param") and not seen:
+                r["_first_param"] = names
+                seen = True
     for i in range(rets):
         co.append('define subflow ret rail %d\n  execute sim_retrieval(rail="ret%d")\n' % (i, i))
     for i, r in enumerate(ins):
@@ -107,6 +115,10 @@ def build_v1(spec):
 def _rail_flow_name(side, i, r):
     if r["kind"] == "shipped":
         return "self check input" if side == "in" else "self check output"
+    if r.get("flow_param"):
+        # a parameterised flow id (as the shipped content-safety rails use: `content safety check output $model=...`): all such
+        # rails of a side share one subflow and differ in the parameter value
+        return "content safety check %s $railid=%s%d" % (side, side, i)
     return "%s rail %d" % (side, i)
 
 
@@ -118,6 +130,16 @@ def _v1_rail_flow(side, i, r):
         return ""
     if r["kind"] == "rewrite_assign":
         return 'define subflow %s rail %d\n  $%s = execute sim_rewrite(rail="%s")\n' % (side, i, var, rail)
+    if r.get("flow_param"):
+        # the shared subflow is emitted once per side (by the first parameterised rail); the refusal messages are per rail
+        first = r.get("_first_param")
+        out = 'define bot refuse {rail}\n  "{ref}"\n'.format(rail=rail, ref=refusal(rail))
+        if first is not None:
+            chain = "".join('      %s $railid == "%s"\n        bot refuse %s\n' % ("if" if k == 0 else "else if", rl, rl) for k, rl in enumerate(first))
+            echain = "".join('      %s $railid == "%s"\n        create event %s(message="%s")\n' % ("if" if k == 0 else "else if", rl, exc, exc_message(rl)) for k, rl in enumerate(first))
+            out += ('define subflow content safety check {side}\n  $allowed = execute sim_rail(rail=$railid{tp})\n  if not $allowed\n'
+                    '    if $config.enable_rails_exceptions\n{echain}    else\n{chain}    stop\n\n').format(side=side, echain=echain, chain=chain, tp=(", text=$%s" % var) if r.get("text_param") else "")
+        return out
     # check (allow / block / rewrite through context_updates); with text_param the checked text is handed over as an explicit
     # action parameter (`text=$bot_message`, as the shipped sensitive-data rails do) instead of being read from the context
     return ('define subflow {side} rail {i}\n  $allowed = execute sim_rail(rail="{rail}"{tp})\n  if not $allowed\n'
